@@ -41,8 +41,8 @@ Proof. exact eval_fpq_stream_select. Qed.
 Print Assumptions fp_sel_sql_meaning.
 
 (* fp_sel selects exactly the fingerprints for which every matcher is witnessed by an index row of
-   that fingerprint inside the date / type bounds (at most 8 matchers: UInt8 bit shifts). *)
-Theorem index_query_selects_witnessed : forall re_match D t cs gin fp, cs <> [] -> (List.length cs <= 8)%nat ->
+   that fingerprint inside the date / type bounds (at most 63 matchers: 64-bit shifts and Go's int literal). *)
+Theorem index_query_selects_witnessed : forall re_match D t cs gin fp, cs <> [] -> (List.length cs <= 63)%nat ->
   List.In fp (fp_sel re_match D t cs gin) <-> series_matches re_match D t cs gin fp.
 Proof. exact fp_sel_correct. Qed.
 Print Assumptions index_query_selects_witnessed.
@@ -53,7 +53,7 @@ Print Assumptions index_query_selects_witnessed.
 Theorem prom_select_exact_refuted :
   ~ (forall (re_match re_full : string -> string -> bool), (forall v p, re_match v (anchor p) = re_full v p) ->
      forall cluster dbname h ms db, use_raw_data h = true -> h_step h = 0 ->
-       db_ok (from_day (h_start h * 1000000)) (d_gin db) (d_series db) -> ms <> [] -> (List.length ms <= 8)%nat ->
+       db_ok (from_day (h_start h * 1000000)) (d_gin db) (d_series db) -> ms <> [] -> (List.length ms <= 63)%nat ->
        prom_query_rows re_match cluster dbname h ms db = Some (expected_rows re_full h ms db)).
 Proof.
   intros H. specialize (H re_none re_none (fun _ _ => eq_refl) false "qryn"%string w_hints w_ms w_db eq_refl eq_refl w_db_ok).
@@ -61,30 +61,13 @@ Proof.
 Qed.
 Print Assumptions prom_select_exact_refuted.
 
-(* ... and, independently of absent labels, for nine or more matchers (the ninth bit is shifted out of UInt8) *)
-Theorem prom_select_exact_refuted_nine :
-  ~ (forall (re_match re_full : string -> string -> bool), (forall v p, re_match v (anchor p) = re_full v p) ->
-     forall cluster dbname h ms db, use_raw_data h = true -> h_step h = 0 ->
-       db_ok (from_day (h_start h * 1000000)) (d_gin db) (d_series db) -> ms <> [] ->
-       (forall m, List.In m ms -> matcher_guard re_full (d_series db) m) ->
-       prom_query_rows re_match cluster dbname h ms db = Some (expected_rows re_full h ms db)).
-Proof.
-  intros H. specialize (H re_none re_none (fun _ _ => eq_refl) false "qryn"%string w_hints n_ms n_db eq_refl eq_refl n_db_ok).
-  rewrite n_rows_none, n_expected_none in H.
-  assert (H' : Some (@nil row) = Some [{| r_fp := 41; r_val := 1; r_ts := 1700000001000 |}]).
-  { apply H; [discriminate|]. intros m Hm. left. cbn in Hm.
-    repeat (destruct Hm as [<-|Hm]; [reflexivity|]). contradiction. }
-  discriminate H'.
-Qed.
-Print Assumptions prom_select_exact_refuted_nine.
-
 (* Partial: when every matcher rejects the empty string or no stored series lacks its label, and there
-   are 1..8 matchers, the rows answered are exactly the Prometheus meaning: samples in (from, to] of the
+   are 1..63 matchers, the rows answered are exactly the Prometheus meaning: samples in (from, to] of the
    metric series satisfying every matcher (regexes anchored), ordered by (fingerprint, time). *)
 Theorem prom_select_exact_partial_rows : forall (re_match re_full : string -> string -> bool),
   (forall v p, re_match v (anchor p) = re_full v p) ->
   forall cluster dbname h ms db, use_raw_data h = true -> h_step h = 0 ->
-    db_ok (from_day (h_start h * 1000000)) (d_gin db) (d_series db) -> ms <> [] -> (List.length ms <= 8)%nat ->
+    db_ok (from_day (h_start h * 1000000)) (d_gin db) (d_series db) -> ms <> [] -> (List.length ms <= 63)%nat ->
     (forall m, List.In m ms -> matcher_guard re_full (d_series db) m) ->
     prom_query_rows re_match cluster dbname h ms db = Some (expected_rows re_full h ms db).
 Proof. intros re_match re_full Hl. intros. now apply (prom_rows_exact re_match re_full Hl). Qed.
@@ -95,7 +78,7 @@ Print Assumptions prom_select_exact_partial_rows.
 Theorem prom_select_exact_partial : forall (re_match re_full : string -> string -> bool),
   (forall v p, re_match v (anchor p) = re_full v p) ->
   forall cluster dbname h ms db, use_raw_data h = true -> h_step h = 0 ->
-    db_ok (from_day (h_start h * 1000000)) (d_gin db) (d_series db) -> ms <> [] -> (List.length ms <= 8)%nat ->
+    db_ok (from_day (h_start h * 1000000)) (d_gin db) (d_series db) -> ms <> [] -> (List.length ms <= 63)%nat ->
     (forall m, List.In m ms -> matcher_guard re_full (d_series db) m) ->
     exists rows, prom_query_rows re_match cluster dbname h ms db = Some rows /\
       let ss := select_loop (snd (querier_transpile cluster dbname h ms)) rows in
@@ -120,7 +103,7 @@ Print Assumptions prom_select_exact_partial.
 Theorem prom_select_exact_partial_series : forall (re_match re_full : string -> string -> bool),
   (forall v p, re_match v (anchor p) = re_full v p) ->
   forall cluster dbname h ms db, use_raw_data h = true -> h_step h = 0 ->
-    db_ok (day_from h) (d_gin db) (d_series db) -> ms <> [] -> (List.length ms <= 8)%nat ->
+    db_ok (day_from h) (d_gin db) (d_series db) -> ms <> [] -> (List.length ms <= 63)%nat ->
     (forall m, List.In m ms -> matcher_guard re_full (d_series db) m) ->
     (forall sm, List.In sm (d_samples db) -> window_ok h sm = true ->
        exists s, List.In s (d_series db) /\ t_fp s = sm_fp sm /\ day_from h <= t_date s /\ t_date s <= day_to h) ->
@@ -139,6 +122,17 @@ Theorem prom_select_exact_partial_series : forall (re_match re_full : string -> 
          StronglySorted Z.le (map fst (o_samples o))).
 Proof. intros re_match re_full Hl. intros. now apply (prom_select_exact_series re_match re_full Hl). Qed.
 Print Assumptions prom_select_exact_partial_series.
+
+(* Several Selects on ONE querier (a PromQL query with several selectors / offsets; model PromSelect.select_step
+   with the labelsGetter as a stateful object and a querier state that could retain one): the series a Select
+   returns are a function of its own hints (window of its labels request), MapResult flag, rows and of the
+   database's reply -- whatever the querier did before, in whatever state it is. *)
+Theorem select_independent_of_earlier_selects : forall answer st1 st2 pre1 pre2 c,
+  last (run_selects answer st1 (pre1 ++ [c])) [] = last (run_selects answer st2 (pre2 ++ [c])) [] /\
+  snd (select_step answer st1 c) =
+  select_series (cl_mr c) (cl_rows c) (answer (cl_from c) (cl_to c) (planned_fps (cl_mr c) (cl_from c) (cl_to c) (cl_rows c))).
+Proof. intros. split; [apply run_selects_independent|apply select_step_meaning]. Qed.
+Print Assumptions select_independent_of_earlier_selects.
 
 (* The row loop turns any fingerprint-contiguous row list into one series per fingerprint holding exactly
    that fingerprint's rows, in order (after MapResult when the down-sampled count_over_time installed it). *)
@@ -176,7 +170,7 @@ Print Assumptions prof_statement_sql_meaning.
    without, those with one such row *)
 Theorem prof_statement_meaning : forall re D1 D2 sels rows fp,
   let '(g, kv) := split_selectors sels in
-  (List.length kv <= 8)%nat ->
+  (List.length kv <= 63)%nat ->
   (List.In fp (prof_fp_sel re D1 D2 sels rows) <->
    match kv with
    | [] => exists r, prow_sem re D1 D2 g rows fp r
@@ -189,7 +183,7 @@ Print Assumptions prof_statement_meaning.
 Theorem prof_select_exact_refuted :
   ~ (forall (re_match re_full : string -> string -> bool), (forall v p, re_match v (anchor p) = re_full v p) ->
      forall D1 D2 sels series fp, pdb_ok series ->
-       (List.length (snd (split_selectors (map prof_selector_val sels))) <= 8)%nat ->
+       (List.length (snd (split_selectors (map prof_selector_val sels))) <= 63)%nat ->
        (List.In fp (prof_fp_sel re_match D1 D2 (map prof_selector_val sels) (pgin_of series)) <->
         List.In fp (prof_expected re_full D1 D2 sels series))).
 Proof.
@@ -199,13 +193,13 @@ Qed.
 Print Assumptions prof_select_exact_refuted.
 
 (* partial: selectors on non-pseudo labels reject the empty string (or no stored series lacks the label),
-   at most 8 of them: the statement returns exactly the fingerprints of the stored series inside the date
+   at most 63 of them: the statement returns exactly the fingerprints of the stored series inside the date
    bounds that satisfy every selector (pseudo labels from type id / sample types / service name, other
    labels with absent = "", regexes anchored) *)
 Theorem prof_select_exact_partial : forall (re_match re_full : string -> string -> bool),
   (forall v p, re_match v (anchor p) = re_full v p) ->
   forall D1 D2 sels series fp, pdb_ok series ->
-    (List.length (snd (split_selectors (map prof_selector_val sels))) <= 8)%nat ->
+    (List.length (snd (split_selectors (map prof_selector_val sels))) <= 63)%nat ->
     (forall sel, List.In sel sels -> selector_guard re_full series sel) ->
     (List.In fp (prof_fp_sel re_match D1 D2 (map prof_selector_val sels) (pgin_of series)) <->
      List.In fp (prof_expected re_full D1 D2 sels series)).
